@@ -191,6 +191,95 @@ def rename_tokens(v):
     return v
 
 
+def monitor_update(m, slot, burst, out, raised, evs, case):
+    """property monitor for one timeslot: consumes the events delivered during one process_burst call"""
+    viol = []
+    cur_sig = pdu_sig(burst.data) if isinstance(burst.data, BLOCK_TYPES) else None
+    is_vh = burst.data_type == DataTypes.VoiceLCHeader
+    is_dh = burst.data_type == DataTypes.DataHeader
+    appended_current = False
+    had_event = False
+    ended_in_burst = False
+    for kind, k, hdr, blocks, handed in evs:
+        had_event = True
+        if kind == "started":
+            m.open = k
+            m.since_start = []
+            m.header = {"V": None, "D": None}
+        else:
+            ended_in_burst = True
+            if m.open != k:
+                viol.append(("ended_%s_without_open_%s_transmission" % (k, k), {**case, "open": m.open}))
+            else:
+                # header of kind k received since the start (the current burst may be that header)
+                want_hdr = m.header[k]
+                if (k == "V" and is_vh) or (k == "D" and is_dh):
+                    want_hdr = pdu_sig(burst.data)
+                if hdr != want_hdr:
+                    viol.append(("ended_hands_over_wrong_header", {**case, "got": hdr and hdr[0], "want": want_hdr and want_hdr[0]}))
+                want_blocks = list(m.since_start)
+                if cur_sig is not None and not appended_current:
+                    want_blocks_incl = want_blocks + [cur_sig]
+                else:
+                    want_blocks_incl = want_blocks
+                if not same_blocks(blocks, want_blocks_incl) and not same_blocks(blocks, want_blocks):
+                    viol.append(("ended_hands_over_wrong_blocks", {**case, "got": [b[0] for b in blocks], "want": [b[0] for b in want_blocks_incl]}))
+                if handed is not None and [pdu_sig(b) for b in handed] != blocks:
+                    viol.append(("handed_over_block_list_modified_after_notification", case))
+            m.open = None
+            m.since_start = []
+            m.header = {"V": None, "D": None}
+    # bookkeeping of what was received since the (possibly new) start
+    if m.open is not None or True:
+        if cur_sig is not None:
+            if not (evs and evs[-1][0] == "ended"):
+                m.since_start.append(cur_sig)
+        if is_vh:
+            m.header["V"] = pdu_sig(burst.data)
+        if is_dh:
+            m.header["D"] = pdu_sig(burst.data)
+    if m.open is None and not (evs and evs[-1][0] == "started"):
+        # nothing open: received blocks do not belong to any started transmission
+        m.since_start = []
+        m.header = {"V": None, "D": None}
+    # rule 3: after an end the tracker is idle with a fresh stream id
+    new_id = slot.transmission.stream_no
+    if had_event:
+        if evs[-1][0] == "ended" and slot.transmission.type != TransmissionTypes.Idle:
+            viol.append(("tracker_not_idle_after_ended", {**case, "type": slot.transmission.type.name}))
+        if new_id in m.seen_ids:
+            viol.append(("stream_id_not_fresh_after_start_or_end", case))
+        m.seen_ids.add(new_id)
+    m.cur_id = new_id
+    if raised is None and out is not None:
+        # rule 5: sequence numbers
+        want_seq = (m.prev_seq + 1) % 256 if m.prev_seq is not None else out.sequence_no
+        if out.sequence_no != want_seq:
+            viol.append(("sequence_number_not_successor", {**case, "got": out.sequence_no, "want": want_seq}))
+        resync = m.prev_seq is None
+        m.prev_seq = 0 if ended_in_burst else out.sequence_no
+        if resync:
+            m.prev_seq = slot.rx_sequence  # numbering state after an externally forced end: whatever the timeslot holds now
+        # rule 4: A-F labelling inside a voice transmission
+        is_voice_burst = burst.data_type == DataTypes.Reserved and not isinstance(burst.data, BLOCK_TYPES)
+        in_voice = (m.open == "V") and not had_event
+        if is_voice_burst and in_voice:
+            if burst.is_voice_superframe_start:
+                if out.voice_burst != VoiceBursts.VoiceBurstA:
+                    viol.append(("voice_sync_burst_not_labelled_A", {**case, "label": out.voice_burst.name}))
+            elif m.prev_voice_label in SUCC and out.voice_burst != SUCC[m.prev_voice_label]:
+                viol.append(("voice_burst_label_not_cyclic_successor", {**case, "prev": m.prev_voice_label.name, "label": out.voice_burst.name}))
+            m.prev_voice_label = out.voice_burst if out.voice_burst in SUCC else None
+        else:
+            m.prev_voice_label = None
+    else:
+        m.prev_voice_label = None
+        m.prev_stamp = None
+        # the sequence counter state after a failure is whatever the implementation left; resync
+        m.prev_seq = slot.rx_sequence
+    return viol
+
+
 class Tracker(explore.System):
     INITS = ["fresh"]
     SLOTS = [1]
@@ -267,86 +356,7 @@ class Tracker(explore.System):
         if repr(canon(other, skip=SKIP, rename=rename_tokens)) != other_before:
             viol.append(("other_timeslot_state_changed", case))
 
-        cur_sig = pdu_sig(burst.data) if isinstance(burst.data, BLOCK_TYPES) else None
-        is_vh = burst.data_type == DataTypes.VoiceLCHeader
-        is_dh = burst.data_type == DataTypes.DataHeader
-        appended_current = False
-        had_event = False
-        ended_in_burst = False
-        for kind, k, hdr, blocks, handed in evs:
-            had_event = True
-            if kind == "started":
-                m.open = k
-                m.since_start = []
-                m.header = {"V": None, "D": None}
-            else:
-                ended_in_burst = True
-                if m.open != k:
-                    viol.append(("ended_%s_without_open_%s_transmission" % (k, k), {**case, "open": m.open}))
-                else:
-                    # header of kind k received since the start (the current burst may be that header)
-                    want_hdr = m.header[k]
-                    if (k == "V" and is_vh) or (k == "D" and is_dh):
-                        want_hdr = pdu_sig(burst.data)
-                    if hdr != want_hdr:
-                        viol.append(("ended_hands_over_wrong_header", {**case, "got": hdr and hdr[0], "want": want_hdr and want_hdr[0]}))
-                    want_blocks = list(m.since_start)
-                    if cur_sig is not None and not appended_current:
-                        want_blocks_incl = want_blocks + [cur_sig]
-                    else:
-                        want_blocks_incl = want_blocks
-                    if not same_blocks(blocks, want_blocks_incl) and not same_blocks(blocks, want_blocks):
-                        viol.append(("ended_hands_over_wrong_blocks", {**case, "got": [b[0] for b in blocks], "want": [b[0] for b in want_blocks_incl]}))
-                    if handed is not None and [pdu_sig(b) for b in handed] != blocks:
-                        viol.append(("handed_over_block_list_modified_after_notification", case))
-                m.open = None
-                m.since_start = []
-                m.header = {"V": None, "D": None}
-        # bookkeeping of what was received since the (possibly new) start
-        if m.open is not None or True:
-            if cur_sig is not None:
-                if not (evs and evs[-1][0] == "ended"):
-                    m.since_start.append(cur_sig)
-            if is_vh:
-                m.header["V"] = pdu_sig(burst.data)
-            if is_dh:
-                m.header["D"] = pdu_sig(burst.data)
-        if m.open is None and not (evs and evs[-1][0] == "started"):
-            # nothing open: received blocks do not belong to any started transmission
-            m.since_start = []
-            m.header = {"V": None, "D": None}
-        # rule 3: after an end the tracker is idle with a fresh stream id
-        new_id = slot.transmission.stream_no
-        if had_event:
-            if evs[-1][0] == "ended" and slot.transmission.type != TransmissionTypes.Idle:
-                viol.append(("tracker_not_idle_after_ended", {**case, "type": slot.transmission.type.name}))
-            if new_id in m.seen_ids:
-                viol.append(("stream_id_not_fresh_after_start_or_end", case))
-            m.seen_ids.add(new_id)
-        m.cur_id = new_id
-        if raised is None and out is not None:
-            # rule 5: sequence numbers
-            want_seq = (m.prev_seq + 1) % 256
-            if out.sequence_no != want_seq:
-                viol.append(("sequence_number_not_successor", {**case, "got": out.sequence_no, "want": want_seq}))
-            m.prev_seq = 0 if ended_in_burst else out.sequence_no
-            # rule 4: A-F labelling inside a voice transmission
-            is_voice_burst = burst.data_type == DataTypes.Reserved and not isinstance(burst.data, BLOCK_TYPES)
-            in_voice = (m.open == "V") and not had_event
-            if is_voice_burst and in_voice:
-                if burst.is_voice_superframe_start:
-                    if out.voice_burst != VoiceBursts.VoiceBurstA:
-                        viol.append(("voice_sync_burst_not_labelled_A", {**case, "label": out.voice_burst.name}))
-                elif m.prev_voice_label in SUCC and out.voice_burst != SUCC[m.prev_voice_label]:
-                    viol.append(("voice_burst_label_not_cyclic_successor", {**case, "prev": m.prev_voice_label.name, "label": out.voice_burst.name}))
-                m.prev_voice_label = out.voice_burst if out.voice_burst in SUCC else None
-            else:
-                m.prev_voice_label = None
-        else:
-            m.prev_voice_label = None
-            m.prev_stamp = None
-            # the sequence counter state after a failure is whatever the implementation left; resync
-            m.prev_seq = slot.rx_sequence
+        viol += monitor_update(m, slot, burst, out, raised, evs, case)
         # rule 7b: non-interference -- each slot behaves like the single-slot run of its projection
         if self.shadow is not None:
             sh = self.shadow[ts]
@@ -364,6 +374,143 @@ class Tracker(explore.System):
         if self.shadow is not None:
             k += [self.shadow[n].key() for n in self.SLOTS]
         return tuple(k)
+
+
+
+# ------------------------------------------------------------------------------------------------
+# TransmissionWatcher: routing of bursts to per-target terminals, end_all_transmissions
+# ------------------------------------------------------------------------------------------------
+from okdmr.dmrlib.transmission.transmission_watcher import TransmissionWatcher  # noqa: E402
+
+TARGETS_W = [101, 202]
+
+
+class WatcherSys(explore.System):
+    INITS = ["fresh"]
+    EVENTS = ["VH", "VT", "VS", "VE", "DH_U1", "DH_C1", "PRE2", "R12_0", "R12_X"]
+
+    def __init__(self, init):
+        SEAMS.tok = 0
+        self.tok = 0
+        self.rec_a = Recorder("w-before")
+        self.rec_b = Recorder("w-after")
+        self.w = TransmissionWatcher(observers=[self.rec_a, Raiser(), self.rec_b])
+        self.slot_rec = {}  # (target, ts) -> Recorder
+        self.mon = {}
+        self.obs = None
+
+    def events(self):
+        evs = [(nm, tg) for tg in TARGETS_W for nm in self.EVENTS]
+        evs += [("VS", 0), ("END_ALL", 0)]
+        return evs
+
+    def _ensure(self, tg):
+        self.w.ensure_terminal(tg)
+        term = self.w.terminals[tg]
+        for n in (1, 2):
+            if (tg, n) not in self.slot_rec:
+                r = Recorder(f"{tg}/{n}")
+                term.timeslots[n].add_observer(r)
+                self.slot_rec[(tg, n)] = r
+                m = SlotMonitor()
+                m.cur_id = term.timeslots[n].transmission.stream_no
+                m.seen_ids.add(m.cur_id)
+                self.mon[(tg, n)] = m
+
+    def _state_of_others(self, tg):
+        return repr(canon({k: t.timeslots for k, t in self.w.terminals.items() if k != tg}, skip=SKIP, rename=rename_tokens))
+
+    def step(self, ev):
+        name, tg = ev
+        viol = []
+        SEAMS.tok = self.tok
+        for r in [self.rec_a, self.rec_b] + list(self.slot_rec.values()):
+            r.events = []
+        case = {"event": [name, tg]}
+        buf = io.StringIO()
+        if name == "END_ALL":
+            raised = None
+            try:
+                with contextlib.redirect_stdout(buf):
+                    self.w.end_all_transmissions()
+            except Exception as e:  # noqa: BLE001
+                raised = e
+                viol.append(("exception_end_all:" + exc_sig(e), {**case, "exc": repr(e)}))
+            self.tok = SEAMS.tok
+            for key, rec in self.slot_rec.items():
+                m = self.mon[key]
+                for kind, k, hdr, blocks, handed in rec.events:
+                    if kind == "ended":
+                        if m.open != k:
+                            viol.append(("ended_%s_without_open_%s_transmission" % (k, k), {**case, "terminal": key[0], "open": m.open}))
+                        elif not same_blocks(blocks, m.since_start):
+                            viol.append(("ended_hands_over_wrong_blocks", {**case, "terminal": key[0]}))
+                        m.open = None
+                        m.since_start = []
+                        m.header = {"V": None, "D": None}
+                        # an end forced from outside (not by a burst) restarts the numbering one burst late; the statement
+                        # quantifies over burst sequences only, so the next sequence number is not constrained
+                        m.prev_seq = None
+                        m.prev_voice_label = None
+                        slot = self.w.terminals[key[0]].timeslots[key[1]]
+                        if slot.transmission.type != TransmissionTypes.Idle:
+                            viol.append(("tracker_not_idle_after_ended", {**case, "terminal": key[0]}))
+                        if slot.transmission.stream_no in m.seen_ids:
+                            viol.append(("stream_id_not_fresh_after_start_or_end", {**case, "terminal": key[0]}))
+                        m.seen_ids.add(slot.transmission.stream_no)
+                    else:
+                        viol.append(("started_during_end_all", {**case, "terminal": key[0]}))
+            self.obs = ("END_ALL", tuple(sorted((k, len(r.events)) for k, r in self.slot_rec.items())))
+            return viol
+        burst = copy.deepcopy(PARSED[name])
+        burst.timeslot = 1
+        if tg:
+            burst.target_radio_id = tg
+            self._ensure(tg)
+        n_terms = len(self.w.terminals)
+        others_before = self._state_of_others(tg)
+        raised = None
+        out = None
+        try:
+            with contextlib.redirect_stdout(buf):
+                out = self.w.process_burst(burst)
+        except Exception as e:  # noqa: BLE001
+            raised = e
+        self.tok = SEAMS.tok
+        if tg == 0:
+            # a burst without a resolvable target is ignored: nothing changes, nothing is delivered
+            if raised is not None:
+                viol.append(("exception:" + exc_sig(raised), {**case, "exc": repr(raised)}))
+            if out is not None or self.rec_b.events or len(self.w.terminals) != n_terms or self._state_of_others(-1) != self._state_of_others(-1):
+                viol.append(("untargeted_burst_not_ignored", case))
+            self.obs = (name, tg, None)
+            return viol
+        if self._state_of_others(tg) != others_before:
+            viol.append(("burst_changed_another_terminal", case))
+        for key, rec in self.slot_rec.items():
+            if key != (tg, 1) and rec.events:
+                viol.append(("event_delivered_on_other_terminal_or_timeslot", {**case, "where": list(key)}))
+        m = self.mon[(tg, 1)]
+        evs = self.slot_rec[(tg, 1)].events
+        case["open_before"] = m.open
+        case["events"] = [(e[0], e[1]) for e in evs]
+        strip = lambda l: [(e[0], e[1], e[2], e[3]) for e in l]  # noqa: E731
+        if raised is not None:
+            viol.append(("exception:" + exc_sig(raised), {**case, "exc": repr(raised)}))
+        elif out is not burst:
+            viol.append(("returned_object_is_not_the_burst", case))
+        if strip(self.rec_a.events) != strip(self.rec_b.events) or strip(evs) != strip(self.rec_b.events):
+            viol.append(("watcher_observers_disagree", case))
+        slot = self.w.terminals[tg].timeslots[1]
+        viol += monitor_update(m, slot, burst, out, raised, evs, case)
+        self.obs = (name, tg, strip(evs), out.sequence_no if out is not None else None, out.voice_burst.name if out is not None else None)
+        return viol
+
+    def key(self):
+        return (
+            repr(canon({k: t.timeslots for k, t in self.w.terminals.items()}, skip=SKIP, rename=rename_tokens)),
+            tuple(sorted((k, m.key()) for k, m in self.mon.items())),
+        )
 
 
 def make(name, slots, events, inits, shadow=False):
@@ -389,6 +536,7 @@ def plan(rep):
         ("single_slot_core_deeper", make("S2", [1], CORE, ["fresh", "seq254"]), 6 if t else 4),
         ("two_slots_noninterference", make("S3", [1, 2], CORE if t else ["VH", "VT", "VS", "VE", "DH_U1", "DH_C1", "PRE2", "R12_0", "R12_X"], ["fresh"], shadow=True), 3),
         ("voice_superframes", make("S4", [1], ["VH", "VS", "VE", "VT", "R12_0"], ["fresh", "seq254"]), 10 if t else 8),
+        ("watcher_two_terminals", WatcherSys, 4 if t else 3),
     ]
 
 
@@ -411,7 +559,7 @@ def run(only=None):
     for name, cls, depth in plan(rep):
         if only and name not in only:
             continue
-        s = rep.sub(name, rule=f"BFS all sequences to depth {depth}, slots={cls.SLOTS}, events={cls.EVENTS or 'all %d' % len(ALPHA)}, inits={cls.INITS}; "
+        s = rep.sub(name, rule=f"BFS all sequences to depth {depth}, slots={getattr(cls, 'SLOTS', 'watcher: 2 target terminals + untargeted + end_all')}, events={cls.EVENTS or 'all %d' % len(ALPHA)}, inits={cls.INITS}; "
                                "non-trivial = distinct (event list, sequence no, label) observations")
         res = explore.bfs(cls, max_depth=depth, log=rep.log)
         explore.feed(s, res, WHAT, name=name, rep=rep)
